@@ -206,6 +206,29 @@ CLAIMS["C09"] = dict(
               "as character-code vectors) + z3 (LIA/LRA)",
     ref="3/C09")
 
+CLAIMS["C11"] = dict(
+    text="(a) symx: the real meta_parse converters (shadow module, builtins "
+         "float/int/bool routed to symbolic versions) are run on symbolic "
+         "int/real/bool values for every key of the metadata tables plus "
+         "online_filter pattern keys; z3 proves documented result type, "
+         "idempotence, and that item assignment, update() and the "
+         "constructor of the real ConfigurationDict store the same converted "
+         "value under the lower-case key; fintlist on symbolic lists. "
+         "(b) CrossHair conditions (real dclab code, symbolic short strings): "
+         "string converters, unknown/empty/None rejection, text round trip "
+         "of user keys, real RTDCWriter.store_metadata -> real "
+         "RTDC_HDF5.parse_config round trip over the in-memory h5py "
+         "stand-in. CrossHair conditions that time out are reported as "
+         "undecided (obligations > discharged), never as success.",
+    note="Trusted: z3, symx, CrossHair 0.0.110. Strings are bounded to 2-3 "
+         "printable ASCII characters; numpy/bytes value representations and "
+         "h5py attribute type changes are outside the claim. In the quick "
+         "tier most CrossHair conditions end undecided within 40 s; they "
+         "still act as counterexample finders (they found two defects).",
+    technique="symbolic execution of the real Python code objects + z3; "
+              "CrossHair (z3-backed symbolic execution) for string inputs",
+    ref="3/C11")
+
 NOT_APPLICABLE = {
 }
 
